@@ -73,6 +73,10 @@ def cases(tier, rng):
     for enc in ('utf8', 'utf-16', 'utf-32'):
         for comp in (None, 'gzip', 'zstd'):
             yield {'kind': 'jsonfile', 'enc': enc, 'compression': comp, 'items': ['a', 'é😀', ''], 'cuts': []}
+            if comp is None:
+                # more records than any buffer the writer may batch by (1025, 2100): the byte-order mark is still written once
+                yield {'kind': 'jsonfile', 'enc': enc, 'compression': comp, 'items': ['r%d' % i for i in range(1025)], 'cuts': []}
+                yield {'kind': 'jsonfile', 'enc': enc, 'compression': comp, 'items': ['é%d' % i for i in range(2100)], 'cuts': []}
             # a reader told to skip records it cannot parse: a valid file still gives every record back
             yield {'kind': 'jsonfile', 'enc': enc, 'compression': comp, 'items': ['a', 'é😀', '', 'line\ntwo', 'z'], 'cuts': [], 'ignore_error': True}
             yield {'kind': 'jsonfile', 'enc': enc, 'compression': comp, 'items': [], 'cuts': []}
